@@ -1,0 +1,49 @@
+//go:build verif
+
+/*
+   Copyright The containerd Authors.
+
+   Licensed under the Apache License, Version 2.0 (the "License");
+   you may not use this file except in compliance with the License.
+   You may obtain a copy of the License at
+
+       http://www.apache.org/licenses/LICENSE-2.0
+
+   Unless required by applicable law or agreed to in writing, software
+   distributed under the License is distributed on an "AS IS" BASIS,
+   WITHOUT WARRANTIES OR CONDITIONS OF ANY KIND, either express or implied.
+   See the License for the specific language governing permissions and
+   limitations under the License.
+*/
+
+// Package verifhook provides named observation points that are compiled in only
+// with the "verif" build tag. An external verification harness registers a
+// handler that is called synchronously whenever the code reaches a point.
+package verifhook
+
+import "sync/atomic"
+
+// Enabled reports whether hooks are compiled in.
+const Enabled = true
+
+type handler struct {
+	f func(name string, args ...interface{})
+}
+
+var cur atomic.Pointer[handler]
+
+// SetHandler installs (or, with nil, removes) the handler called by Point.
+func SetHandler(f func(name string, args ...interface{})) {
+	if f == nil {
+		cur.Store(nil)
+		return
+	}
+	cur.Store(&handler{f: f})
+}
+
+// Point calls the registered handler, if any.
+func Point(name string, args ...interface{}) {
+	if h := cur.Load(); h != nil {
+		h.f(name, args...)
+	}
+}
